@@ -177,6 +177,8 @@ class PType:
                     self.kind = "other"
                 else:
                     self.kind = "bool" if mb else ("cbatch" if self.complex else "batch")
+                if self.ptr and not self.ref and self.kind == "batch":
+                    self.kind = "rows"      # pointer to an array of batches (haddp rows, transpose matrix)
             return
         if t in CPP_TO_AID or t in ("xsimd::generic", "xsimd::common"):
             self.kind = "tag"
